@@ -114,6 +114,8 @@ func writeEvidence(cfg *CheckConfig, tier string, seed int64, stats []*entryStat
 		"unsat":                         unsat,
 		"unknown":                       unknown,
 		"solver_s":                      round3(solverS),
+		"second_solver_cross_checks":    crossSum(rs, 0),
+		"second_solver_agreed":          crossSum(rs, 1),
 		"load_s":                        round3(x.loadS),
 		"replay_s":                      round3(x.replayS),
 		"truncated_paths":               trunc,
@@ -164,3 +166,15 @@ func solverName() string {
 
 var _ = fmt.Sprint
 var _ interp.Dec
+
+// crossSum adds up, over the worker processes that were alive at the end of
+// an entry, how many assertion queries were re-discharged by cvc5 / z3-new
+// (index 0) and how many of those got a definite, agreeing answer (index 1).
+// (Workers recycled between entries take their counts with them: a lower bound.)
+func crossSum(rs *runState, i int) int {
+	n := 0
+	for _, v := range rs.cross {
+		n += v[i]
+	}
+	return n
+}
